@@ -179,16 +179,22 @@ func (c26) NewRun(plan *simrt.Source, job *harn.Job) harn.Run {
 			}
 		}
 	}
-	switch plan.Draw(3) {
+	switch plan.Draw(5) {
 	case 0:
 		r.args = []string{"."}
 	case 1:
 		r.args = []string{"./..."}
-	case 2:
+	case 2, 3, 4:
 		for _, f := range r.files {
 			if f.Kind != "bystander" {
 				r.args = append(r.args, f.Rel)
 			}
+		}
+		// overlapping arguments: the same file named twice, or a directory and a file inside it
+		if k := plan.Draw(6); k == 4 && len(r.args) > 0 {
+			r.args = append(r.args, r.args[0])
+		} else if k == 5 && len(r.args) > 0 {
+			r.args = append([]string{"."}, r.args[len(r.args)-1])
 		}
 	}
 	r.inject = plan.Chance(500)
